@@ -142,6 +142,9 @@ class Interp:
         self.map_ctx = []
         self.recurrences = []
         self.assumed = []
+        self.scatter = None
+        self.all_subst = {}
+        self.loop_log = []
 
     # -- tracing ---------------------------------------------------------------
     def sub_trace(self):
@@ -283,6 +286,8 @@ class Interp:
             idx = self.ev(e["idx"], env)
 
             def g(base=base, idx=idx):
+                if self.scatter is not None and isinstance(idx, IntV):
+                    return Sc(ssym("OLD:" + base.desc))
                 return self.index_val(self.deref(base.get()), idx, e)
 
             def s(v, base=base, idx=idx):
@@ -337,6 +342,9 @@ class Interp:
     def index_write(self, base_ref, b, idx, v, e=None):
         if not (isinstance(b, Vec) and isinstance(idx, IntV)):
             raise Unanalysable(f"indexed write {idx!r} into {b!r}")
+        if self.scatter is not None:
+            self.scatter.append({"target": base_ref.desc, "root": base_ref.root_id, "idx": idx.e, "value": v, "old": ssym("OLD:" + base_ref.desc), "where": FX.short((e or {}).get("sp"))})
+            return
         # inside a loop over the index symbol: element-wise write schema
         for lc in reversed(self.loop_ctx):
             if lc.get("isym") is not None and idx.e.has(lc["isym"]):
@@ -744,6 +752,10 @@ class Interp:
                 self.bounds.add_le(c.b, c.a)
             else:  # !(a < b) aborts -> a + 1 <= b
                 self.bounds.add_le(c.a + 1, c.b)
+        if isinstance(c, Cond) and c.op == "eq" and c.neg and c.a is not None:
+            # a != b aborts -> a == b afterwards
+            self.bounds.add_le(c.a, c.b)
+            self.bounds.add_le(c.b, c.a)
 
     def snapshot(self, env):
         return {k: self.copy_val(v) for k, v in env.items()}
@@ -1069,6 +1081,7 @@ class Interp:
                 pass  # element-wise writes / pushes handled through loop_ctx; effect objects by reference
             else:
                 raise Unanalysable(f"loop-carried variable {name} of kind {cur!r}", where)
+        self.loop_log.append({"n": seg.n, "off": off, "where": where, "fn": self.fn_stack[-1] if self.fn_stack else ""})
         lc = {"isym": j, "n": seg.n, "off": off, "writes": [], "pushes": [], "elem_updates": [], "where": where, "node": e, "outer_ids": set(env.keys())}
         pushed, read = self.pushed_and_read(body, env)
         rec = {}
@@ -1134,6 +1147,7 @@ class Interp:
                 raise Unanalysable(f"loop-carried integer update {carried[lid]} := {ne} matches no schema", where)
         for lid, v in finals.items():
             env[lid] = v
+        self.all_subst.update(subst)
 
         def fix(v, at=None):
             return subst_val(v, subst) if subst else v
